@@ -188,6 +188,11 @@ func (vt *Model) decrst(params [][]int) {
 func (vt *Model) decrqm(pd int) {
 	ps := 0
 	switch pd {
+	case 2027:
+		// Graphemes are always clustered and measured per Unicode here (the
+		// parser hands over whole grapheme clusters with their width): the
+		// mode is permanently set
+		ps = 3
 	case 1:
 		switch vt.mode.decckm {
 		case true:
